@@ -75,7 +75,7 @@ which the eager row defines a result gives exactly that result -/
 theorem dense_observations (b : DBase) (stages : List Stage) (e0 e : EagerD) (r : DRow)
     (hb : eagerBaseD b = .ok e0) (he : eagerD stages e0 = .ok (some e))
     (hr : buildD stages (baseD b) = .ok (some r)) (a : Acc)
-    (hna : match a with | .label => False | .tipe => False | .feats _ => False | _ => True)
+    (hna : match a with | .label => False | .tipe => False | .feats _ => False | .clone _ => False | _ => True)
     (hdef : eagerObsD e a ≠ .undef) :
     obsD r a = eagerObsD e a := obsD_of_ref (dense_ref' b stages e0 e r hb he hr) a hna hdef
 
@@ -93,12 +93,13 @@ theorem feats_label_partial (b : DBase) (stages : List Stage) (k : Key) (t : Opt
   feats_label_dense' b stages k t e0 e hb he
 
 /-- the hypothesis "LabelRows last" is necessary: `[1,2,3]`, label column 1, then `EncodeRows([+1,+1,+1])`:
-the row reads `[2,3,4]` but its label is still 2 (eager: 3) -/
+the row reads `[2,3,4]` and the eager label is 3, but the row has no `label` any more: with fixes/C13-stale-feats-label.diff a
+wrapper does not pass `feats`/`label` on (AttributeError) — before that repair it answered the stale 2 -/
 theorem feats_label_counterexample :
     ∃ r e, buildD cexStages (baseD cexBase) = .ok (some r) ∧
       (match eagerBaseD cexBase with | .ok e0 => eagerD cexStages e0 | .error er => .error er) = .ok (some e) ∧
       r.iter = .ok e.cells ∧
-      r.labelVal = .ok (.int 2) ∧ e.labelVal = some (.int 3) := feats_label_dense_cex'
+      r.labelVal = .error .attrError ∧ e.labelVal = some (.int 3) := feats_label_dense_cex'
 
 /-- accessing a row in different ways or in a different order never changes what later accesses return:
 any history of accesses on one row object yields what the same accesses yield on fresh rows -/
@@ -180,7 +181,7 @@ theorem sparse_len_eq (b : SBase) (stages : List Stage) (hs : leakSafe (!(baseS 
 theorem sparse_observations (b : SBase) (stages : List Stage) (hs : leakSafe (!(baseS b).leak.isEmpty) stages = true) (e0 e : EagerS) (r : SRow)
     (he0 : eagerBaseS b = .ok e0) (he : eagerS stages e0 = .ok (some e))
     (hr : buildS stages (baseS b) = .ok (some r)) (a : Acc)
-    (hna : match a with | .label => False | .tipe => False | .feats _ => False | .name k => k ∉ r.leak | _ => True)
+    (hna : match a with | .label => False | .tipe => False | .feats _ => False | .clone _ => False | .name k => k ∉ r.leak | _ => True)
     (hdef : eagerObsS e a ≠ .undef) :
     (obsS r a).agree (eagerObsS e a) :=
   let h := sparse_ref' b stages hs e0 e r he0 he hr; obsS_of_ref h.1 h.2 a hna hdef
@@ -209,12 +210,13 @@ theorem feats_label_sparse_partial (b : SBase) (stages : List Stage) (k : Key) (
   feats_label_sparse' b stages k t hs e0 e he0 he
 
 /-- "LabelRows last" is necessary for sparse rows too: `{0:1, 1:2}`, label key 1, then `EncodeRows({0:+1, 1:+1})`:
-the row reads `{0:2, 1:3}` but its label is still 2 (eager: 3)  (recorded C13-F9) -/
+the row reads `{0:2, 1:3}` and the eager label is 3, but the row has no `label` any more (AttributeError; the stale 2 before
+fixes/C13-stale-feats-label.diff)  (recorded C13-F9 / C13-F12) -/
 theorem feats_label_sparse_counterexample :
     ∃ r e, buildS cexStagesS (baseS cexBaseS) = .ok (some r) ∧
       (match eagerBaseS cexBaseS with | .ok e0 => eagerS cexStagesS e0 | .error er => .error er) = .ok (some e) ∧
       r.items = .ok e.d ∧
-      r.labelVal = .ok (.int 2) ∧ e.labelVal = some (.int 3) := feats_label_sparse_cex'
+      r.labelVal = .error .attrError ∧ e.labelVal = some (.int 3) := feats_label_sparse_cex'
 
 /-- the condition `k ∉ r.leak` of `sparse_get` is necessary: `LazySparse({0:7}, fwd={'a':0}, inv={0:'a'})`
 answers `row['a'] == 7` like the eager dict `{'a':7}`, but also `row[0] == 7` where the eager dict raises KeyError -/
@@ -240,6 +242,38 @@ example : leakSafe (!(baseS exArffS).leak.isEmpty) exArffStages = true ∧
     ∃ e0 e r, eagerBaseS exArffS = .ok e0 ∧ eagerS exArffStages e0 = .ok (some e) ∧ buildS exArffStages (baseS exArffS) = .ok (some r) ∧
       e.d = [(.name "a", .flt 3), (.name "b", .tup [1, 0, 0])] ∧ r.items = .ok e.d :=
   ⟨rfl, _, _, _, rfl, rfl, rfl, rfl, rfl⟩
+
+/-! ## copies of rows inside access histories
+
+`Acc.clone sub`: at this point of the history the row object is copied (copy.copy / copy.deepcopy / pickle round trip) and `sub`
+is made on the copy.  In the model a copy of a row is the row (same wrapper tree, same base data, same state of the load-once cell);
+the harness makes the real copies and compares. -/
+
+/-- any access sequence interleaved with copies yields the values of the same sequence without the copy steps (dense) -/
+theorem access_after_clone (r : DRow) (as : List Acc) : runD r as = runD r (as.map Acc.strip) := runD_strip r as
+
+/-- … (sparse) -/
+theorem access_after_clone_sparse (r : SRow) (as : List Acc) : runS r as = runS r (as.map Acc.strip) := runS_strip r as
+
+/-- copies never change the original: after an access on a copy the original answers every later history as before -/
+theorem clone_leaves_original (r : DRow) (a : Acc) (bs : List Acc) : runD (stepD r (.clone a)).2 bs = runD r bs :=
+  runD_after_clone r a bs
+
+theorem clone_leaves_original_sparse (r : SRow) (a : Acc) (bs : List Acc) : runS (stepS r (.clone a)).2 bs = runS r bs :=
+  runS_after_clone r a bs
+
+/-- an access on a copy (of the row, of its feats, of a copy …) is the access itself, on the lazy row and on the eager row:
+so `dense_observations` / `sparse_observations` / `feats_label_*` apply to `a.strip` -/
+theorem clone_is_transparent (r : DRow) (e : EagerD) (a : Acc) :
+    obsD r a = obsD r a.strip ∧ eagerObsD e a = eagerObsD e a.strip := ⟨obsD_strip r a, eagerObsD_strip e a⟩
+
+theorem clone_is_transparent_sparse (r : SRow) (e : EagerS) (a : Acc) :
+    obsS r a = obsS r a.strip ∧ eagerObsS e a = eagerObsS e a.strip := ⟨obsS_strip r a, eagerObsS_strip e a⟩
+
+/-- a history with copies on a concrete row: `deepcopy(row)[1]`, `copy(row.feats)` iterated, then `row[1]` -/
+example : ∃ r, buildD exStages (baseD exBase) = .ok (some r) ∧
+    runD r [.clone (.pos 1), .feats (.clone .iter), .pos 1] = [.val (.int 3), .vals [.int 1], .val (.int 3)] :=
+  ⟨_, rfl, rfl⟩
 
 /-! ## one set of filter objects, several tables -/
 
